@@ -44,11 +44,18 @@ func (e *Env) queryFunctions() (queries, decoders []*ssa.Function) {
 			continue // closures are accounted for at their call sites
 		}
 		name := fn.Name()
+		isDecoder := func(f *ssa.Function) bool {
+			return f.Signature.Recv() != nil && (f.Name() == "Decode" || perToken[f.Object()])
+		}
 		switch {
 		case strings.HasPrefix(name, "init"):
 			continue
-		case fn.Signature.Recv() != nil && (name == "Decode" || perToken[fn.Object()]):
+		case isDecoder(fn):
 			decoders = append(decoders, fn)
+		case e.privateTo(fn, isDecoder):
+			// a helper that runs only on behalf of the decoders: what it writes is attributed to
+			// them through the transitive effects (and would be attributed to a query if one ever called it)
+			continue
 		default:
 			queries = append(queries, fn)
 		}
@@ -282,41 +289,63 @@ func (e *Env) templatePrivate(rule string) {
 		c.Fail(rule, "v3/report template helper", "", "the function ExportWithString hands the template text to was not found")
 		return
 	}
-	sf := e.P.SSAFunc(fn)
 	ef := e.F.Effects()
 	okT, okB := false, false
-	for _, b := range sf.Blocks {
-		for _, in := range b.Instrs {
-			call, ok := in.(*ssa.Call)
-			if !ok || call.Call.StaticCallee() == nil {
-				continue
+	badT, badB := false, false
+	private := func(v ssa.Value) bool {
+		rs := ef.Roots(v)
+		if len(rs) == 0 {
+			return false
+		}
+		for _, r := range rs {
+			if r.Kind != facts.RLocal && r.Kind != facts.RNone {
+				return false
 			}
-			switch call.Call.StaticCallee().String() {
-			case "(*text/template.Template).Parse":
-				rs := ef.Roots(call.Call.Args[0])
-				okT = len(rs) > 0
-				for _, r := range rs {
-					if r.Kind != facts.RLocal && r.Kind != facts.RNone {
-						okT = false
-					}
+		}
+		return true
+	}
+	// the helper and the unexported functions of its package it calls (the parse-and-execute step may be a function of its own)
+	seen := map[*ssa.Function]bool{}
+	var visit func(sf *ssa.Function, depth int)
+	visit = func(sf *ssa.Function, depth int) {
+		if sf == nil || seen[sf] || depth > 3 {
+			return
+		}
+		seen[sf] = true
+		for _, b := range sf.Blocks {
+			for _, in := range b.Instrs {
+				call, ok := in.(*ssa.Call)
+				if !ok || call.Call.StaticCallee() == nil {
+					continue
 				}
-			case "(*text/template.Template).Execute":
-				rs := ef.Roots(call.Call.Args[1])
-				okB = len(rs) > 0
-				for _, r := range rs {
-					if r.Kind != facts.RLocal && r.Kind != facts.RNone {
-						okB = false
+				callee := call.Call.StaticCallee()
+				switch callee.String() {
+				case "(*text/template.Template).Parse":
+					if private(call.Call.Args[0]) {
+						okT = true
+					} else {
+						badT = true
 					}
-				}
-				rs = ef.Roots(call.Call.Args[0])
-				for _, r := range rs {
-					if r.Kind != facts.RLocal && r.Kind != facts.RNone {
-						okT = false
+				case "(*text/template.Template).Execute":
+					if private(call.Call.Args[1]) {
+						okB = true
+					} else {
+						badB = true
+					}
+					if !private(call.Call.Args[0]) {
+						badT = true
+					}
+				default:
+					if co, _ := callee.Object().(*types.Func); co != nil && !co.Exported() && callee.Pkg == sf.Pkg && len(callee.Blocks) > 0 {
+						visit(callee, depth+1)
 					}
 				}
 			}
 		}
 	}
+	visit(e.P.SSAFunc(fn), 0)
+	okT = okT && !badT
+	okB = okB && !badB
 	c.Check(okT, rule, fname(fn)+" template", e.P.Pos(fn.Pos()), "created by template.New in the same call", "the template parsed/executed is not private to the call (shared template: Parse on it is a data race)")
 	c.Check(okB, rule, fname(fn)+" buffer", e.P.Pos(fn.Pos()), "a fresh buffer allocated in the same call", "the output buffer is not private to the call")
 }
@@ -359,7 +388,7 @@ func (e *Env) templateRules() {
 		ls := leavesOf(exec)
 		nOK := 0
 		for _, lf := range ls {
-			cons := fmt.Sprintf("%s path returning at %s", who, e.P.Pos(lf.Pos))
+			cons := e.pathName(who, lf)
 			// template operations on this path
 			var parse, execute *ir.Term
 			for _, ef := range lf.Effects {
@@ -419,7 +448,7 @@ func (e *Env) templateRules() {
 		rNil := ir.Bin("==", ir.Param(0), nilOf(gts.Type().(*types.Signature).Params().At(0).Type()))
 		nOK := 0
 		for _, lf := range ls {
-			cons := fmt.Sprintf("%s path returning at %s", who, e.P.Pos(lf.Pos))
+			cons := e.pathName(who, lf)
 			if len(lf.Ret) != 2 {
 				continue
 			}
@@ -467,7 +496,7 @@ func (e *Env) templateRules() {
 		recvNil := ir.Bin("==", ir.Param(0), nilOf(types.NewPointer(T.Type())))
 		// ExportWithString
 		for _, lf := range leavesOf(ews) {
-			cons := fmt.Sprintf("%s path returning at %s", fname(ews), e.P.Pos(lf.Pos))
+			cons := e.pathName(fname(ews), lf)
 			if len(lf.Ret) != 2 {
 				continue
 			}
@@ -485,7 +514,7 @@ func (e *Env) templateRules() {
 		gerr := &ir.Term{Op: ir.OExtract, N: 1, Args: []*ir.Term{gcall}}
 		gstr := &ir.Term{Op: ir.OExtract, N: 0, Args: []*ir.Term{gcall}}
 		for _, lf := range leavesOf(ew) {
-			cons := fmt.Sprintf("%s path returning at %s", fname(ew), e.P.Pos(lf.Pos))
+			cons := e.pathName(fname(ew), lf)
 			if len(lf.Ret) != 2 {
 				continue
 			}
